@@ -75,10 +75,16 @@ LibSigs ==
   @@ ("IC2" :> Sig(0, <<Tu(<<TInt, TStr>>)>>, Nm("IU", <<>>)))
   @@ ("IC3" :> Sig(0, <<>>, Nm("IU", <<>>)))
   @@ ("ISome" :> Sig(1, <<SV(1)>>, Nm("IOpt", <<SV(1)>>)))
+  \* type IEither<A, B> = ILeft of A | IRight of B
+  @@ ("ILeft" :> Sig(2, <<SV(1)>>, Nm("IEither", <<SV(1), SV(2)>>)))
+  @@ ("IRight" :> Sig(2, <<SV(2)>>, Nm("IEither", <<SV(1), SV(2)>>)))
+  \* ... with explicit type arguments (ILeft<int, string> x): Go cannot infer a type parameter the payload does not mention
+  @@ ("ILeft<int,string>" :> Sig(0, <<TInt>>, Nm("IEither", <<TInt, TStr>>)))
+  @@ ("IRight<int,string>" :> Sig(0, <<TStr>>, Nm("IEither", <<TInt, TStr>>)))
 
 \* the cases of the unions IU and IOpt<T>: payload types (scheme variables = the union's type parameters)
-UnionOfCase == [IC1 |-> "IU", IC2 |-> "IU", IC3 |-> "IU", ISome |-> "IOpt", INone |-> "IOpt"]
-CasePayload == [IC1 |-> TInt, IC2 |-> Tu(<<TInt, TStr>>), IC3 |-> Unit, ISome |-> SV(1), INone |-> Unit]
+UnionOfCase == [IC1 |-> "IU", IC2 |-> "IU", IC3 |-> "IU", ISome |-> "IOpt", INone |-> "IOpt", ILeft |-> "IEither", IRight |-> "IEither"]
+CasePayload == [IC1 |-> TInt, IC2 |-> Tu(<<TInt, TStr>>), IC3 |-> Unit, ISome |-> SV(1), INone |-> Unit, ILeft |-> SV(1), IRight |-> SV(2)]
 
 ---------------------------------------------------------------------------
 \* instantiate scheme variable k as the fresh variable t<base+k>
